@@ -22,6 +22,12 @@ def addNCr2 (a b : Jac) : Jac :=
   | some (r, _) => (rget r 3, rget r 4, rget r 5)
   | none => Jac.inf
 
+/-- `DoubleNonConst(&p, &r)` with a distinct result (the crypto/elliptic adaptor) -/
+def dblNC3 (p : Jac) : Jac :=
+  match runNamed "DoubleNonConst" [p.1, p.2.1, p.2.2, 0, 0, 0] [] with
+  | some (r, _) => (rget r 3, rget r 4, rget r 5)
+  | none => Jac.inf
+
 def isInfJ (q : Jac) : Bool := (q.1 == 0 && q.2.1 == 0) || q.2.2 == 0
 
 /-- `e.SetByteSlice(hash)` -/
